@@ -85,6 +85,34 @@ def streams(seed, tier):
                 if op in ("YANK", "YANKDUP", "SHOVE"):
                     st["int"] = [rng.choice([0, 1, depth - 2, depth - 1, depth, depth // 2, -1, 2147483647])] + st["int"]
                 cases.append(case_run(rng.randrange(2), state(**st), 0, 1))
+    # value-dependent shortcuts: items that compare equal without being the same (0.0 / -0.0, NaN payloads), identical
+    # neighbours, and LARGE single items (more points / characters / elements than any configured limit)
+    big = L(*[Z(i % 5) for i in range(120)])
+    SPECIAL = {
+        "float": [0, 0x80000000, 0x7fc00000, 0xffc00000, 0x7f800000, 0xff800000, fbits(1.0), fbits(1.0), 1, 0x80000001],
+        "bool": [True, True, False, False], "int": [0, 0, -1, 2147483647, -2147483648, 7, 7],
+        "name": ["a", "a", "A", "", "x" * 300, "\u00e9" * 200], "code": [big, big, L(), L(), Z(1), L(big, big), N("q"), L(*[I("NOOP")] * 101)],
+        "exec": [big, Z(3), Z(3), L(*[Z(0)] * 101), L()], "bvec": [[], [], [True] * 600, [True], [True]],
+        "ivec": [[], [0] * 600, [1, 2], [1, 2]], "fvec": [[0], [0x80000000], [0x7fc00000], [0xffc00000], [fbits(1.0)] * 600],
+    }
+    sp = []
+    nper = {"quick": 12, "thorough": 120, "search": 40}[tier]
+    for T, (field, mk) in TYPES.items():
+        for op in OPS:
+            nm = T + "." + op
+            if nm not in names:
+                continue
+            for _ in range(nper):
+                depth = rng.randrange(2, 6)
+                st = bystanders()
+                st[field] = [rng.choice(SPECIAL[field]) for _ in range(depth)]
+                st["exec"] = ([I(nm)] + st["exec"]) if T == "EXEC" else [I(nm)]
+                if op in ("YANK", "YANKDUP", "SHOVE"):
+                    st["int"] = [rng.randrange(-1, depth + 1)] + (st["int"] if T != "INTEGER" else [])
+                sp.append(case_run(rng.randrange(2), state(**st), 0, 1))
+    out.append(Stream("special-values", "run", "stackops.check", sp,
+                      "every stack type x 9 instructions on stacks of 2..5 items drawn from look-alike / extreme values: +-0.0, NaN payloads, infinities, repeated items, "
+                      "empty and 600-element vectors, 300-character names, code items of 101..240 points"))
     out.append(Stream("size-thresholds", "run", "stackops.check", cases,
                       "every stack type x 9 instructions on stacks %s deep (%d depths drawn per pair), indices at 0 / middle / depth-1 / depth / beyond" % (scales, per)))
     return out
